@@ -309,16 +309,20 @@ func c06Memory(x *explore.Ctx, readerIsServer bool) {
 	li := x.Pick(3, "limit")
 	limit := []int64{1000, 0, 1 << 40}[li]
 	prog := x.Pick(2, "readprog")
+	sent := []int{10, 20000}[x.Pick(2, "bytes-actually-sent")]
 	var deltas []uint64
 	claims := []uint64{1 << 20, 1 << 40, 1 << 62}
 	if li > 0 {
 		// the claimed length is within the limit (or there is none): the frame is accepted and
 		// whatever was actually sent is delivered; memory must still follow the bytes received
 		// (claims are kept below 256 MiB so that a violating tree cannot exhaust the machine)
-		claims = []uint64{513, 1 << 16, 1 << 20, 1 << 24, 1 << 27}
+		claims = []uint64{1 << 16, 1 << 20, 1 << 24, 1 << 27}
+		if sent == 10 {
+			claims = append([]uint64{513}, claims...)
+		}
 	}
 	for _, claim := range claims {
-		f := wsref.Frame{Fin: true, Opcode: wsref.OpBinary, Masked: masked, Key: maskKeys[3], LenForm: 64, ClaimLen: claim, Payload: Pattern(0, 10)}
+		f := wsref.Frame{Fin: true, Opcode: wsref.OpBinary, Masked: masked, Key: maskKeys[3], LenForm: 64, ClaimLen: claim, Payload: Pattern(0, sent)}
 		stream := wsref.Encode(f)
 		var d uint64
 		for rep := 0; rep < 2; rep++ { // first repetition warms pools
@@ -359,5 +363,5 @@ func c06Memory(x *explore.Ctx, readerIsServer bool) {
 			mx = d
 		}
 	}
-	x.Check(mx-mn < 16<<10 && mx < 64<<10, "C06:memory-depends-on-claimed-length", "bytes allocated while receiving frames claiming %v bytes (10 actually sent each, read limit %d): %v", claims, limit, deltas)
+	x.Check(mx-mn < 16<<10 && mx < uint64(64<<10+8*sent), "C06:memory-depends-on-claimed-length", "bytes allocated while receiving frames claiming %v bytes (%d actually sent each, read limit %d): %v", claims, sent, limit, deltas)
 }
